@@ -13,7 +13,8 @@ ASSUME_WB = [
 PROPS = {
     "C01": dict(
         rule="case = pre-existing well-formed file(s) + 1-4 tests (prefix-related names) with 1-14 MatchSnapshot/MatchJSON/MatchYAML calls each; "
-             "run 1 records with updating enabled, run 2 replays the same calls read-only (default / Update(false) / CI / UPDATE_SNAPS=clean) in a permuted test order. "
+             "run 1 records with updating enabled, run 2 replays the same calls read-only (default / Update(false) / CI / UPDATE_SNAPS=clean) in a permuted test order, tests executed 1-3 times, optionally interleaved like parallel tests. "
+             "Lines include BOM-prefixed lines and lines of buffer-boundary lengths (4095-4097, 65535-65537). cross_build_replay stage (black box): a real test program records with a normal or -trimpath build and the other build replays read-only (CI or not, -count 1-2): no failure, no write. "
              "non-trivial = the case contains a terminator/escape line, blank line, edge newline, empty body, header-looking line, invalid UTF-8, a line > 64 KiB, "
              ">= 10 calls in one test, >= 2 entry kinds in one file, a structured Go value, or pre-existing entries; distinct = distinct canonical JSON",
         assumptions=ASSUME_WB + ["carriage return at the end of a line (documented limitation) is excluded by construction and counted"],
@@ -26,7 +27,8 @@ PROPS = {
              "(default / Update(false) / CI / UPDATE_SNAPS=clean / other strings), colours on or off. Pairs come from 1-2 edits of a hostile text "
              "(byte flip/insert/delete, edge newline, whitespace, invalid UTF-8 swap, U+FFFD vs invalid byte, line dup/delete/replace/move), independent texts, "
              "JSON value mutations and YAML text edits. non-trivial = pair differs only in edge newlines, only in whitespace, only in invalid UTF-8, in exactly one byte, "
-             "takes the inline (coloured single-line) path, or is a JSON value change; distinct = distinct canonical JSON",
+             "takes the inline (coloured single-line) path, or is a JSON value change; distinct = distinct canonical JSON. "
+             "huge_line_counts stage: enumerated descriptor cases - texts of N distinct lines with N on 0x7FFF/0x8001, 0xD7FF-0xE001, 0xFFFD-0x10001, received = last line(s) changed / two lines swapped / first line changed",
         assumptions=ASSUME_WB + ["known finding K1 (`---` vs `/-/-/-/` lines) is excluded by construction from the main campaign and probed by its own generator"],
         stages=[
             dict(name="changed", run="^TestC02_Changed$", quick=1500, thorough=20000, shards_quick=4, shards_thorough=16),
@@ -57,6 +59,7 @@ PROPS = {
         rule="the full table CI{on,off} x Update option{unset,true,false} x UPDATE_SNAPS{unset,true,clean,other string} x Clean sort{on,off} x 5 entry points x entry state{missing,equal,different} "
              "x obsolete items{present,absent} = 1440 cells, enumerated completely; per cell the values and the 'other' string come from seeded generators. Each cell = a preparation run and one real process of a "
              "data-driven test program (real environment variables, real TestMain + snaps.Clean); the observed call outcome and the directory delta are compared with the statement's table written as a pure function. "
+             "The pre-existing snapshot is presented as the library wrote it, or (every 4th multi-entry cell) converted to CRLF line ends, or (every 3rd standalone cell with an existing file) as a symbolic link to the real file. "
              "non-trivial = cells in which a create, rewrite, delete or sort is requested by the situation; every cell is distinct",
         assumptions=["black-box: scenario program compiled against /repo with `replace`, executed with an explicit minimal environment", "UPDATE_SNAPS and CI are read by the real init code of the process"],
         stages=[dict(name="table", engine="bb", run="^TestC05_", quick=1, thorough=1, shards_quick=8, shards_thorough=16)],
@@ -64,7 +67,8 @@ PROPS = {
     "C06": dict(
         rule="schedules: package snaps is rebuilt with a yield before every statement and cooperative mutexes; a case = concurrent scenario (2-4 tests with distinct, prefix-related names sharing one file, 1-3 calls each of "
              "{create, match, mismatch without update, update}, foreign pre-existing entries, shuffled initial order) x schedule (0-3 preemptions at yields placed with weight on file-system/lock statements, tie-break choices). "
-             "exhaustive stage: every schedule with <= 2 preemptions of fixed two-task scenarios (1 scenario quick, 4 thorough). Oracle: every call gets its serial outcome; the final file parses, keeps the initial entries in order with "
+             "values include entries of 4800 and 9000 bytes (beyond 4096/8192 buffer sizes). exhaustive stage: every schedule with <= 2 preemptions of fixed two-task scenarios (1 scenario quick, 4 thorough); "
+             "exhaustive_big: every single preemption (thorough: every pair) of two scenarios with such big entries. Oracle: every call gets its serial outcome; the final file parses, keeps the initial entries in order with "
              "updated bodies, holds exactly one entry per created slot; no deadlock. race stage: generated goroutine mixes of the five APIs, Skip* and one shared Config under the race detector. "
              "non-trivial = >= 1 preemption and >= 2 writing tasks (schedules); >= 2 APIs (race); distinct = distinct canonical JSON",
         assumptions=["file operations between two yields are atomic (statement granularity); kernel-level partial writes are out of reach", "exhaustive only up to two preemptions on small scenarios",
@@ -80,7 +84,9 @@ PROPS = {
     "C07": dict(
         rule="case = test program (1-5 tests/subtests, 0-12 calls each over all five APIs and 1-3 configs incl. custom Filename/Ext/second dir), -count 1-3, -run in {empty, Test, ^Test, exact alternation, .}, "
              "pre-existing directory from a recording run plus stale entries at random positions, stale files, unrelated files, sub-directories; some slots are first added in the run itself; "
-             "Clean in every mode x sort. Oracle: every slot addressed in this process keeps its entry/standalone file byte-identical, is never listed, and a read-only replay passes. "
+             "Clean in every mode x sort; further dimensions: an addressed file converted to CRLF line ends, a file with an unterminated last entry, main directory names with glob metacharacters next to sibling directories, "
+             "-test.cpu lists with empty elements, 36-60 addressed files while RLIMIT_NOFILE leaves 24 free descriptors during Clean, very long lines. real_runner stage: real -test.count/-test.run/-test.cpu. "
+             "Oracle: every slot addressed in this process keeps its entry/standalone file byte-identical (line ends aside), is never listed, and a read-only replay passes. "
              "non-trivial = -count > 1, or a test with >= 10 calls, or standalone and multi-entry mixed, or stale neighbours present; distinct = distinct canonical JSON",
         assumptions=ASSUME_WB + ["Clean is the exported function driven in-process with test.run/test.count set through the flag package; -run values always select every executed test"],
         stages=[dict(name="clean_keeps", run="^TestC07_", quick=400, thorough=4000, shards_quick=4, shards_thorough=16),
@@ -102,7 +108,8 @@ PROPS = {
     ),
     "C09": dict(
         rule="case = as C07 but -run empty, with skip-protected tests (snaps.Skip/Skipf/SkipNow before any or after some calls, always in files shared with running tests), "
-             "stale entries (absent tests, ordinals beyond the calls), stale multi-entry and standalone files, unrelated files, sub-directories (one named sub.snap), an unaddressed directory, -count 1-3, all modes x sort. "
+             "stale entries (absent tests, ordinals beyond the calls), stale multi-entry and standalone files, unrelated files, sub-directories (one named sub.snap), an unaddressed directory, -count 1-3, all modes x sort, "
+             "directory names with glob metacharacters + siblings, -test.cpu lists, more addressed files (36-60) than free descriptors (24) during Clean. "
              "Oracle: reported set contains every stale item of the model and no addressed item; removed iff reported and deletion allowed; everything else byte- and mtime-identical. "
              "non-trivial = at least one stale entry and one stale file present; distinct = distinct canonical JSON",
         assumptions=ASSUME_WB + ["skip-protected entries are exempt from the completeness demand (C08 judges them)"],
@@ -121,14 +128,17 @@ PROPS = {
         rule="case = JSON tree (distinct keys incl. empty/unicode/escaped/dotted, numbers of all shapes as literals, escapes, depth <= 5) x presentations (insignificant whitespace incl. CR/TAB, member permutation) "
              "x input form (string/[]byte/Go value) x options (default, or Width/Indent/SortKeys) x API (MatchJSON/MatchStandaloneJSON), plus one invalid text (truncation, dropped quote/brace, trailing comma, "
              "bad literals, non-JSON whitespace padding, trailing data) judged invalid by encoding/json. Oracles: relations (1)-(5) of DESIGN §6/C14. non-trivial = every case (each carries an invalid input); "
-             "classes record depth >= 2, exotic numbers, escapes, option kinds; distinct = distinct canonical JSON",
+             "classes record depth >= 2, exotic numbers, escapes, option kinds; distinct = distinct canonical JSON. Further stages inside the case: one []byte buffer rewritten in place with same-length documents between assertions "
+             "(each must store what a fresh process stores). TestC14_DeepNesting: enumerated documents nested 1..10002 levels (thorough ..65536; arrays <= 4096 quick / 10002 thorough because the pretty printer is quadratic), three input forms, "
+             "oracle independent of encoding/json (stored text minus whitespace == input)",
         assumptions=ASSUME_WB + ["validity oracle is encoding/json.Valid on valid-UTF-8 texts; duplicate member names and a Go string/[]byte passed as 'value' are outside the domain"],
         stages=[dict(name="json", run="^TestC14_", quick=500, thorough=8000, shards_quick=4, shards_thorough=16)],
     ),
     "C15": dict(
         rule="case = JSON tree or block-YAML tree + 1-4 matchers (Any with default/custom placeholders of every JSON type, shorter and longer than the value; Type with the node's type; Custom returning a value) "
              "on existing paths chosen by walking the tree (keys needing gjson escapes, array elements, nested; the same path twice; a parent after its child and a child after its parent), input as string/[]byte/Go value, "
-             "through MatchJSON / MatchStandaloneJSON / MatchYAML, SortKeys on and off. Oracle: a reported error (trivial, counted in classes) or the stored document equals the model set(tree, path, placeholder) applied left to right "
+             "through MatchJSON / MatchStandaloneJSON / MatchYAML, SortKeys on and off; placeholders related to the replaced value (the value itself, a string spelling its JSON source, the quoted source); options chained or applied as statements; "
+             "keys `$`, `a:b`, `x/y`; the matcher VALUES are also reused after warm-up documents (a later listed path removed, the first path removed, empty container) and must store the same. Oracle: a reported error (trivial, counted in classes) or the stored document equals the model set(tree, path, placeholder) applied left to right "
              "as an ordered tree, Custom callbacks observe the model's current value, the caller's bytes are unchanged. non-trivial = >= 2 matchers, path depth >= 2, key needing escape, array element, or "
              "placeholder not longer than the value with []byte input; distinct = distinct canonical JSON",
         assumptions=ASSUME_WB + ["YAML output is parsed with goccy/go-yaml (ordered maps): the only YAML parser available offline", "a reported matcher error is a legal outcome"],
@@ -136,7 +146,9 @@ PROPS = {
     ),
     "C16": dict(
         rule="case = document D (JSON tree or block YAML), 1-3 pairwise non-nested masked paths with matchers satisfiable on D (Any with plain/non-ASCII/quoted placeholders, Type[T] of the node's type, Custom returning a constant), "
-             "D' = D with every masked value replaced by another value satisfying the same matcher (other scalars, null, long strings, containers), D'' = D or D' with one uncovered scalar changed. "
+             "D' = D with every masked value replaced by another value satisfying the same matcher (other scalars, null, long strings, containers), D'' = D or D' with one uncovered scalar changed; "
+             "merged form: all masked paths in ONE Any with ErrOnMissingPath(false), interleaved with paths that do not exist and are textual prefixes / extensions of the existing ones (sibling keys sharing a prefix); keys `$`, `a:b`; "
+             "matcher values reused after a warm-up document. "
              "Oracle: stored(D) == stored(D') byte-for-byte, each replays read-only against the other's snapshot without writing, D'' reports exactly one error. "
              "non-trivial = at least one masked path and D' differs textually from D; the D'' class is counted separately; distinct = distinct canonical JSON",
         assumptions=ASSUME_WB + ["Type[any] is excluded (the placeholder records the dynamic type by design)", "cases on which a matcher reports an error on D or D' are counted as trivial"],
@@ -144,6 +156,7 @@ PROPS = {
     ),
     "C17": dict(
         rule="case = document + 1-5 matchers of which a generated subset fails (missing path, wrong type for Type, Custom returning an error) in any order, some missing paths under ErrOnMissingPath(false), "
+             "matcher pairs where the second fails only because the first (satisfiable) one replaced its target (parent then child; the same Type twice), options chained or applied as statements, "
              "mode in {create allowed, update enabled with an existing different entry, Update(false), CI}, JSON / standalone JSON / YAML, 0-2 calls before and 1-3 calls after. "
              "Oracle: one failure naming match.<Name>(\"<path>\") for every failing matcher, nothing written (mtime), later calls land in slots k+1...; with only tolerated missing paths the call proceeds per mode. "
              "non-trivial = a failing and a satisfiable matcher together, or update-enabled mode with an existing entry, or a tolerated missing path; distinct = distinct canonical JSON",
@@ -152,7 +165,7 @@ PROPS = {
     ),
     "C18": dict(
         rule="case = YAML text from a grammar (block mappings/sequences, flow collections incl. header-looking `[TestA - 2]`, comments, quoted/plain/block scalars with `---` and `/-/-/-/` lines, "
-             "multi-document streams with ---/..., %YAML directive, anchors/aliases, trailing blank lines, with/without final newline; LF only), split by the YAML library itself into valid and invalid; "
+             "multi-document streams with ---/... (separators also with trailing blanks, tabs or a comment), %YAML directive, anchors/aliases, trailing blank lines, with/without final newline, optional leading BOM; LF only), split by the YAML library itself into valid and invalid; "
              "constructed invalid inputs (unclosed flow/quote, tab indentation, undefined alias); Go values (nested maps with varied key order, tagged structs, multi-line strings); documents with a matcher (final newline). "
              "Oracle: stored body == escape(input) byte-for-byte, read-only replay passes without writing; Go values store identical text in two processes; invalid = one `invalid yaml` failure, nothing written, ordinal consumed. "
              "non-trivial = document with a separator line, comment, header-looking line, terminator in a block scalar, no final newline or trailing blank lines; or a Go value; or an invalid input; distinct = distinct canonical JSON",
@@ -161,7 +174,7 @@ PROPS = {
     ),
     "C19": dict(
         rule="case = one test (names with '/', '%', unicode) making 1-12 calls (MatchStandaloneSnapshot with arbitrary bytes incl. CR/CRLF/`---`/NUL/invalid UTF-8 and structured values, "
-             "MatchStandaloneJSON, interleaved MatchSnapshot) under configs with/without Filename/Ext (also containing '%'), executed 1-3 times per process. Four processes: record (exact file set and bytes), "
+             "MatchStandaloneJSON, interleaved MatchSnapshot, MatchStandaloneJSON calls that are rejected in every process (invalid JSON, failing matcher) and still are the k-th call) under configs with/without Filename/Ext (also containing '%'), executed 1-3 times per process. Four processes: record (exact file set and bytes), "
              "read-only replay (passes, no write), changed values without update (one error, untouched), update (file replaced wholesale, unchanged files not written). "
              "non-trivial = a value with CR, a terminator-like line, an empty value, >= 2 executions, >= 10 calls, or an update to a shorter value; distinct = distinct canonical JSON",
         assumptions=ASSUME_WB + ["standalone ordinals count per resolved file pattern (README: _1.snap and _1.snap.html for different Ext)"],
@@ -180,17 +193,19 @@ PROPS = {
     "C11": dict(
         rule="case = one test function of a real test program (root package, sub, sub/deep/er) whose body is a generated tree of 1-4 steps per level: calls of the five entry points with Dir in {unset, relative, nested relative, ../up, "
              "./x/../x, absolute}, Filename (incl. '%', dots, unicode, spaces), Ext (incl. '.snap', '.%s'), package-level functions, call shapes {direct, closure, helper in the test file, helper in a non-test file, helper in another package} "
-             "with 0-3 extra frames, inside subtests / nested subtests with names containing '%', '/', spaces. Every case is executed three times: normal build from the package dir, normal build from a foreign working directory, "
-             "-trimpath build from the package dir; each time the exact set of created files (and the entry ids inside multi-entry files) must equal the statement's formula computed from the known source path. "
-             "every case is non-trivial (three build/cwd variants); classes record option kinds, shapes, helper depth; distinct = distinct canonical JSON",
+             "with 0-100 extra frames, inside subtests / nested subtests with names containing '%', '/', spaces, rejected calls (invalid JSON/YAML) that still consume their ordinal, optionally a second test function from another test file in the same process. "
+             "Every case is executed eight times: normal / -trimpath build x cwd = package dir / foreign cwd x GOFLAGS in the environment (unset, -trimpath, unrelated, -trimpath=false, -gcflags=-trimpath=/src); each time the exact set of created files (and the entry ids inside multi-entry files) must equal the statement's formula computed from the known source path. "
+             "every case is non-trivial (eight build/cwd/GOFLAGS variants); classes record option kinds, shapes, helper depth; distinct = distinct canonical JSON",
         assumptions=["the file name is asserted only when the first *_test.go frame is the file that declares the test function (the scenario program is built that way)", "-trimpath is asserted for cwd = package directory only (documented limitation otherwise)"],
         stages=[dict(name="location", engine="bb", run="^TestC11_", quick=60, thorough=1500, shards_quick=8, shards_thorough=16, trimpath=True)],
     ),
     "C12": dict(
         rule="differential: a sequence of 1-8 calls (five APIs) through shared Configs A, B (B built from the SAME option values as A plus overrides) and configs built late, "
-             "versus the same sequence with a brand-new Config (fresh option values) per call; outcomes and the resulting directory trees must be identical. "
+             "versus the same sequence with a brand-new Config (fresh option values) per call; outcomes and the resulting directory trees must be identical; a witness document through A before and after the sequence stores the same; "
+             "optionally the snapshot directory is removed between two calls: the remaining calls must then behave as in a process that makes only them. "
+             "test_order stage (black box): 2-3 test functions of a real test program (different test files, helpers in non-test files and another package) - the snapshots of test X when all tests run == when -run ^X$ runs alone. "
              "race stage: 2-4 goroutines x 1-5 calls through ONE shared Config under the race detector. "
-             "non-trivial = MatchStandaloneJSON followed by another API on a Config without Ext, or >= 3 APIs, or a JSON option overridden in B (differential); >= 2 APIs (race); distinct = distinct canonical JSON",
+             "non-trivial = MatchStandaloneJSON followed by another API on a Config without Ext, or >= 3 APIs, or a JSON option overridden in B, or the directory removed (differential); two test files (test_order); >= 2 APIs (race); distinct = distinct canonical JSON",
         assumptions=ASSUME_WB + ["package-level Match* functions are exercised by the black-box engine only (they derive the directory from the source location)",
                                  "a race report is always a real race; absence is limited to the executed accesses"],
         stages=[
@@ -201,7 +216,8 @@ PROPS = {
     ),
     "C13": dict(
         rule="cases are ordered pairs of texts (+ colour flag): exhaustive over line sequences of a 3-letter alphabet, "
-             "random pairs from the hostile line alphabet related by 1-3 edits, and large texts (>10 / >=200 lines with popular lines). "
+             "random pairs from the hostile line alphabet related by 1-3 edits (1 in 40 made right after a 64-1100 KiB comparison: the report must equal the one in isolation), large texts (>10 / >=200 lines with popular lines), "
+             "and enumerated huge texts whose number of distinct lines sits on 0x7FFF/0x8001, 0xD7FF-0xE001, 0xFFFD-0x10001. "
              "non-trivial = texts differ and (>=2 hunks, or repeated lines, or >10 lines, or whitespace-only / invalid-UTF-8 difference, or inline path taken); "
              "distinct = distinct canonical JSON of the case",
         assumptions=["oracles R1-R4 of DESIGN §6/C13 are implemented independently of the diff code; the report grammar parsed is the NO_COLOR one"],
